@@ -129,10 +129,19 @@ def tasks(ctx, quick):
                 c = conditions(rng)
                 c.update(fluence=fl, exposure=ex, cd=rng.choice([0.0, 1.0, 70.0]))
                 items.append({"id": "t%d" % len(items), "kind": "act", "iso": [Z, A], "cond": c, "rel": False})
+    # records edited by the owner and restored with reload=True; isotopes reached through one of their ions
+    for k in range(24 if quick else 120):
+        Z, A = isos[(k * 37 + 5) % len(isos)]
+        t = {"id": "t%d" % len(items), "kind": "act", "iso": [Z, A], "cond": conditions(rng), "rel": False}
+        t["edit_reload" if k % 3 == 0 else "via_ion"] = True
+        items.append(t)
     forms = ["Co", "Co30Fe70", "H2O", "SiO2", "Au", "NaCl", "Gd2O3", "Eu", "Dy", "C12H22O11", "Co[59]", "Fe[58]2O3", "AgCl", "In", "Mn0.5Ni0.5", "U", "LiF",
-             "HDO", "Li[6]3Li7F10", "Co[59]Co2", "Fe[58]Fe9O4", "Cu[63]Cu", "Ag[107]AgCl2", "Eu[151]EuO3", "W[186]W"]
+             "HDO", "Li[6]3Li7F10", "Co[59]Co2", "Fe[58]Fe9O4", "Cu[63]Cu", "Ag[107]AgCl2", "Eu[151]EuO3", "W[186]W",
+             "Co[59]{2+}", "Fe[58]{3+}2O3", "Na{+}Cl{-}", "Cu[63]{2+}O{2-}"]
     for i in range(40 if quick else 300):
         c = conditions(rng)
+        if i % 2:
+            c["rests"] = rng.sample([0, 1, 24, 360, 0.5, 1e3, 5], rng.randint(2, 4))       # as the caller wrote them: any order
         items.append({"id": "t%d" % len(items), "kind": "sample", "formula": forms[i % len(forms)] if i < len(forms) else rng.choice(forms), "cond": c})
     return items
 
